@@ -373,3 +373,14 @@ Qed.
 Check C09_sweep_accept.
 Check C09_htlc_accept.
 Check C09_htlc_accept_fields.
+
+(** The feerate estimate by which the HTLC-transaction decoder recovers the feerate in the sweep model is the one in the source.  Gen/TxUtilGen.v is the statement-by-statement translation of [estimate_feerate_per_kw]
+    (vls-core/src/util/transaction_utils.rs, regenerated on every run by tools/gen_rustfn.py): for
+    every u64 fee and every non-zero weight it returns, in both build profiles, the model's value. *)
+From VLS Require Gen.TxUtilGen Proofs.TxUtilGenProofs.
+Theorem C09_feerate_estimate_is_source :
+  forall (prof : profile) (fee w : N),
+    fee <= U64MAX -> 0 < w ->
+    TxUtilGen.gen_estimate_feerate_per_kw prof fee w = Val (CommitmentPolicy.estimate_feerate_per_kw fee w).
+Proof. exact TxUtilGenProofs.gen_estimate_is_model. Qed.
+Print Assumptions C09_feerate_estimate_is_source.
